@@ -170,7 +170,7 @@ def observe_random(seed, n, sems, fuel, check):
     return events
 
 
-def validate_events(events, name, rep, what, parallel=8, chunk=400):
+def validate_events(events, name, rep, what, parallel=8, chunk=400, only=None):
     """Obs_Uplc on events recorded from the real machine; includes a corrupted canary event."""
     canaries = []
     for e in events:
@@ -202,6 +202,8 @@ def validate_events(events, name, rep, what, parallel=8, chunk=400):
     for e in panics:
         rep.violation("panic:" + cj(e["term"]) + e["sem"], {"term": e["term"], "sem": e["sem"], "observed": e["out"]},
                       "evaluator panicked: %s" % e["out"].get("msg", "")[:200])
+    if only:
+        bad = [(e, w) for e, w in bad if only in w]
     for e, why in bad:
         rep.violation(vkey(e["term"], e["sem"], e["out"]), {"term": e["term"], "sem": e["sem"], "observed": e["out"],
                                                           "observed_cost": e.get("cost"), "source": what}, "Obs_Uplc: " + why)
@@ -269,3 +271,360 @@ def c03_replay(path):
 
 
 # --------------------------------------------------------------------------- C05, C04, C10 follow
+
+
+# --------------------------------------------------------------------------- C04
+
+BGROUPS = ["int", "bytes", "string", "poly", "data", "bits", "crypto"]
+
+
+def mc_builtin(group, sems, slack, workers=6, timeout=1500):
+    cfg = write_cfg("MC_Builtin_%s" % group,
+                    {"Group": '"%s"' % group, "Sems": tla_set(sems), "ForceSlack": "TRUE" if slack else "FALSE"},
+                    ["TypeOK", "CostSane", "ResultClosed", "Emit"])
+    r = vlib.tlc("MC_Builtin", cfg=cfg, workers=workers, timeout=timeout, xmx="12g", metaname="MC_Builtin_" + group)
+    if not r.ok:
+        raise vlib.ToolError("MC_Builtin(%s) did not complete cleanly: %s\n%s" % (group, r.error, r.out[-1500:]))
+    cases = r.tagged("REPLAY")
+    if not cases:
+        raise vlib.ToolError("MC_Builtin(%s) printed no REPLAY line" % group)
+    return cases, r
+
+
+def builtin_of(term):
+    t = term
+    while t["k"] in ("app", "force"):
+        t = t["f"] if t["k"] == "app" else t["b"]
+    return t.get("f")
+
+
+def sems_for(group, tier):
+    if tier == "thorough":
+        return SEMS
+    return {"bytes": ["A", "C", "E"], "string": ["A", "D", "E"], "bits": ["C", "E"]}.get(group, ["A", "E"])
+
+
+def replay_builtins(tier, rep, check_cost, check_outcome=True):
+    tot = dict(states=0, transitions=0, cases=0, unknown=0, nontrivial=set(), samples=[], per_builtin={}, succ=0)
+    for g in BGROUPS:
+        t0 = time.time()
+        cases, r = mc_builtin(g, sems_for(g, tier), slack=(tier == "thorough" or g in ("poly",)))
+        tot["states"] += r.distinct
+        tot["transitions"] += r.generated
+        real = [{"term": c["term"], "var": c["sem"]} for c in cases]
+        # the same application inside another program: (force (delay t)) - equal arguments, equal answer
+        wrapped = [{"term": {"k": "force", "b": {"k": "delay", "b": c["term"]}}, "var": c["sem"]} for c in cases]
+        obs = eval_real(real + wrapped)
+        obs1, obs2 = obs[:len(cases)], obs[len(cases):]
+        for c, o, o2 in zip(cases, obs1, obs2):
+            tot["cases"] += 1
+            f = builtin_of(c["term"])
+            tot["per_builtin"][f] = tot["per_builtin"].get(f, 0) + 1
+            if cj(o["out"]) != cj(o2["out"]):
+                rep.violation("nondet:" + cj(c["term"]) + c["sem"], {"term": c["term"], "sem": c["sem"], "first": o, "second": o2},
+                              "builtin answered differently for equal arguments in two programs")
+            if c["out"]["o"] == "unknown":
+                tot["unknown"] += 1
+                if o["out"]["o"] == "panic":
+                    rep.violation("panic:" + cj(c["term"]) + c["sem"], {"term": c["term"], "sem": c["sem"], "observed": o},
+                                  "evaluator panicked: %s" % o["out"].get("msg", "")[:200])
+                continue
+            why = outcome_mismatch(c["out"], o["out"])
+            if why and not check_outcome:
+                continue        # a wrong RESULT is C04's business, not C05's
+            if why is None and check_cost and c["out"]["o"] == "val" and o["cost"] != c["cost"]:
+                why = "cost differs: spec %s observed %s" % (c["cost"], o["cost"])
+            if why:
+                rep.violation(vkey(c["term"], c["sem"], o["out"]),
+                              {"term": c["term"], "sem": c["sem"], "expected": c["out"], "expected_cost": c["cost"],
+                               "observed": o, "source": "MC_Builtin group=%s" % g}, why)
+            if c["out"]["o"] == "val":
+                tot["succ"] += 1
+            tot["nontrivial"].add(vlib.canon_hash([c["term"], c["sem"]]))
+        mid = cases[len(cases) // 3]
+        tot["samples"].append({"group": g, "term": mid["term"], "sem": mid["sem"], "expected": mid["out"], "expected_cost": mid["cost"]})
+        log("[mcb] %s: %d applications, %.1fs" % (g, len(cases), time.time() - t0))
+    return tot
+
+
+def c04(tier):
+    t0 = time.time()
+    rep = vlib.Reporter("C04")
+    comparator_canary("C04")
+    anc = anchor_spec()
+    tot = replay_builtins(tier, rep, check_cost=False)
+    if len(tot["per_builtin"]) < 80 or tot["succ"] < 1000:
+        raise vlib.ToolError("C04 vacuity: %d builtins, %d successful applications" % (len(tot["per_builtin"]), tot["succ"]))
+    cov = {
+        "states": tot["states"], "transitions": tot["transitions"],
+        "traces_validated_against_impl": tot["cases"] - tot["unknown"],
+        "samples": tot["samples"], "evaluations": 2 * tot["cases"], "distinct_nontrivial": len(tot["nontrivial"]),
+        "rule": "MC_Builtin: each builtin x product of per-position boundary pools (incl. symbolic huge integers, wrong-typed "
+                "and non-constant values) x force counts x semantics variants; every case is distinct by construction; "
+                "each is executed twice (bare, and inside (force (delay .))) and the two answers must coincide",
+        "exhaustive": True, "builtins_covered": len(tot["per_builtin"]), "successful_applications": tot["succ"],
+        "spec_unknown_only_crash_checked": tot["unknown"], "anchor_goldens_agreeing_with_spec": anc["ok"],
+    }
+    rc = rep.finish()
+    vlib.write_evidence("C04", tier, "model_checking", cov,
+                        ["UplcBuiltins.tla denotations are my transcription of the Plutus builtin specification, anchored on the "
+                         "upstream per-builtin conformance goldens", "hashes, signatures, BLS arithmetic, expModInteger and results "
+                         "beyond 2^30 are not computed by the spec: for those only typing / arity / failure shape and absence of "
+                         "crashes are checked"], time.time() - t0, len(rep.violations))
+    return rc
+
+
+def c04_replay(path):
+    return _replay_generic(path, "C04")
+
+
+# --------------------------------------------------------------------------- C05
+
+def mc_budget(profile, n, sems, slippages, workers=6, timeout=1500):
+    cfg = write_cfg("MC_Budget_%s_%d" % (profile, n),
+                    {"N": n, "Profile": '"%s"' % profile, "Sems": tla_set(sems), "OpenVars": 0, "MaxSteps": 300,
+                     "Slippages": "{" + ", ".join(str(x) for x in slippages) + "}"},
+                    ["TypeOK", "Exact", "Threshold", "BatchBound", "BEmit"], spec="BSpec")
+    r = vlib.tlc("MC_Budget", cfg=cfg, workers=workers, timeout=timeout, xmx="12g", metaname="MC_Budget_%s_%d" % (profile, n))
+    if not r.ok:
+        raise vlib.ToolError("MC_Budget(%s,%d) did not complete cleanly (a violated invariant here is a flaw of the "
+                             "SPECIFICATION's accounting): %s\n%s" % (profile, n, r.error, r.out[-1500:]))
+    cases = r.tagged("REPLAY")
+    if not cases:
+        raise vlib.ToolError("MC_Budget printed no REPLAY line")
+    return cases, r
+
+
+def budget_mismatch(c, o):
+    out = o["out"]
+    if out["o"] == "panic":
+        return "evaluator panicked: %s" % out.get("msg", "")[:200]
+    if c["verdict"] == "done":
+        if out["o"] != "val":
+            return "budget %s suffices (cost %s) but evaluation failed: %s/%s" % (c["budget"], c["cost"], out.get("c"), out.get("e"))
+        if c["out"]["o"] == "val" and cj(c["out"]["v"]) != cj(out["v"]):
+            return "result differs"
+        if o["rem"] != c["rem"]:
+            return "remaining budget differs: spec %s observed %s (slippage %s)" % (c["rem"], o["rem"], c["slippage"])
+        return None
+    if c["verdict"] == "budget":
+        if out["o"] == "val":
+            return "budget %s is below the cost %s but evaluation succeeded (remaining %s)" % (c["budget"], c["cost"], o["rem"])
+        if c["pure"] == "done" and out.get("c") != "budget":
+            return "expected an out-of-budget failure, observed %s/%s" % (out.get("c"), out.get("e"))
+        return None
+    # the term itself fails
+    return None if out["o"] == "fail" else "spec: failure; observed a value"
+
+
+def c05(tier):
+    t0 = time.time()
+    rep = vlib.Reporter("C05")
+    anc = anchor_spec()
+    profiles = [("lambda", 4, ["E"]), ("core", 5, ["A"]), ("poly", 3, ["C"])] if tier == "quick" else \
+               [("lambda", 5, ["E"]), ("core", 5, ["A", "C"]), ("poly", 4, ["C", "E"]), ("constr", 4, ["E"])]
+    slips = [1, 2, 3, 200]
+    states = trans = ncases = 0
+    nontriv = set()
+    samples = []
+    for (profile, n, sems) in profiles:
+        t1 = time.time()
+        cases, r = mc_budget(profile, n, sems, slips)
+        states += r.distinct
+        trans += r.generated
+        obs = eval_real([{"term": c["term"], "var": c["sem"], "budget": c["budget"], "slippage": c["slippage"]} for c in cases])
+        for c, o in zip(cases, obs):
+            ncases += 1
+            why = budget_mismatch(c, o)
+            if why:
+                rep.violation(cj([c["term"], c["sem"], c["budget"], c["slippage"]]),
+                              {"term": c["term"], "sem": c["sem"], "budget": c["budget"], "slippage": c["slippage"],
+                               "expected": {"verdict": c["verdict"], "rem": c["rem"], "cost": c["cost"]}, "observed": o,
+                               "source": "MC_Budget %s N=%d" % (profile, n)}, why)
+            if c["pure"] == "done" and c["cost"]["cpu"] >= 48100:
+                nontriv.add(vlib.canon_hash([c["term"], c["budget"], c["slippage"]]))
+        samples.append({k: cases[len(cases) // 2][k] for k in ("term", "sem", "slippage", "budget", "verdict", "rem", "cost")})
+        log("[mcbudget] %s N=%d: %d runs, %.1fs" % (profile, n, len(cases), time.time() - t1))
+    # canary: a flipped expectation must be noticed
+    c0 = dict(cases[0]); o0 = obs[0]
+    c0 = dict(c0, rem={"cpu": c0["rem"]["cpu"] + 1, "mem": c0["rem"]["mem"]}, verdict="done", out={"o": "unknown"})
+    if budget_mismatch(c0, o0) is None:
+        raise vlib.ToolError("C05 comparator canary did not fire")
+    # builtin costing functions: every MC_Builtin row with its cost
+    tb = replay_builtins(tier, rep, check_cost=True, check_outcome=False)
+    # beyond the bound: random programs, cost recorded under a random slippage, validated by the spec machine;
+    # then the threshold property relative to that (spec-validated) cost
+    rng = random.Random(vlib.seed() + 5)
+    nrand = 1500 if tier == "quick" else 20000
+    events = []
+    for sem in ["A", "C", "E"]:
+        terms = termgen.random_terms(rng.randint(0, 1 << 30), nrand // 3, fuel=(6, 50), wrong=0.01, sem=sem)
+        sl = [rng.choice([1, 2, 3, 5, 7, 50, 200, 1000]) for _ in terms]
+        ob = eval_real([{"term": t, "var": sem, "slippage": s} for t, s in zip(terms, sl)])
+        for t, s, o in zip(terms, sl, ob):
+            events.append({"id": len(events), "term": t, "sem": sem, "out": o["out"], "cost": o.get("cost", {}), "chk": "both", "slippage": s})
+    res = validate_events(events, "c05rand", rep, "random term, random slippage (seed %d)" % vlib.seed(), only="cost differs")
+    good = [e for e in events if e["out"]["o"] == "val" and e["id"] not in set(x["id"] for x, _ in res["skipped"])
+            and e["id"] not in set(x["id"] for x, _ in res["bad_real"])]
+    thr_cases = []
+    for e in good:
+        c = e["cost"]
+        for b, exp in (({"cpu": c["cpu"], "mem": c["mem"]}, "done"), ({"cpu": c["cpu"] - 1, "mem": c["mem"]}, "budget"),
+                       ({"cpu": c["cpu"], "mem": c["mem"] - 1}, "budget")):
+            thr_cases.append({"term": e["term"], "sem": e["sem"], "budget": b, "slippage": rng.choice([1, 3, 200]),
+                              "verdict": exp, "pure": "done", "cost": c, "out": {"o": "unknown"},
+                              "rem": {"cpu": 0, "mem": 0}})
+    ob = eval_real([{"term": c["term"], "var": c["sem"], "budget": c["budget"], "slippage": c["slippage"]} for c in thr_cases])
+    for c, o in zip(thr_cases, ob):
+        why = budget_mismatch(c, o)
+        if why:
+            rep.violation(cj([c["term"], c["sem"], c["budget"], c["slippage"]]),
+                          {"term": c["term"], "sem": c["sem"], "budget": c["budget"], "slippage": c["slippage"],
+                           "expected": {"verdict": c["verdict"], "cost": c["cost"]}, "observed": o,
+                           "source": "threshold on random term"}, why)
+    cov = {
+        "states": states + tb["states"] + res["states"], "transitions": trans + tb["transitions"] + res["generated"],
+        "traces_validated_against_impl": ncases + tb["cases"] - tb["unknown"] + res["ok"] + len(thr_cases),
+        "samples": samples + tb["samples"][:2],
+        "evaluations": ncases + tb["cases"] + len(events) + len(thr_cases),
+        "distinct_nontrivial": len(nontriv) + tb["succ"] + len(good),
+        "rule": "MC_Budget: terms x slippage {1,2,3,200} x budgets {C, C-1cpu, C-1mem, C+, 0, start-up only, ...} "
+                "(non-trivial: >= 3 machine steps); MC_Builtin rows with their costing function result; random "
+                "programs with random slippage validated by Obs_Uplc (value and cost) then re-run at budget C, C-1cpu, C-1mem",
+        "exhaustive": True, "budgeted_runs": ncases, "builtin_cost_rows": tb["succ"], "random_cost_events_accepted": res["ok"],
+        "threshold_runs_on_random_terms": len(thr_cases), "anchor_budget_goldens_agreeing_with_spec": anc["ok"],
+    }
+    rc = rep.finish()
+    vlib.write_evidence("C05", tier, "model_checking", cov,
+                        ["UplcCostTable.tla holds the ledger's default cost parameters per semantics variant, validated against the "
+                         "upstream .uplc.budget.expected goldens through the spec machine; synthetic cost vectors are not covered",
+                         "costs that exceed 2^31 are outside TLC's integers: such events are skipped and counted"],
+                        time.time() - t0, len(rep.violations))
+    return rc
+
+
+def c05_replay(path):
+    case = json.load(open(path))["case"]
+    c = {"term": case["term"], "var": case["sem"]}
+    for k in ("budget", "slippage"):
+        if k in case:
+            c[k] = case[k]
+    o = eval_real([c])[0]
+    print(json.dumps({"expected": case.get("expected"), "expected_cost": case.get("expected_cost"), "observed": o}, indent=1))
+    exp = case.get("expected") or {}
+    bad = False
+    if "verdict" in exp:
+        cc = {"verdict": exp["verdict"], "rem": exp.get("rem", o.get("rem")), "cost": exp.get("cost"), "budget": case.get("budget"),
+              "slippage": case.get("slippage"), "pure": "done", "out": {"o": "unknown"}}
+        bad = budget_mismatch(cc, o) is not None
+    else:
+        bad = outcome_mismatch(exp, o["out"]) is not None or (case.get("expected_cost") and o.get("cost") != case["expected_cost"])
+    if bad:
+        print("VIOLATION property=C05 replay=%s" % path)
+        return 1
+    return 0
+
+
+# --------------------------------------------------------------------------- C10 (evaluation part)
+
+def extra_malformed():
+    """inputs TLC's 32-bit integers cannot carry: absurd de Bruijn indices, very deep terms"""
+    big = [1 << 40, (1 << 63) - 1, (1 << 64) - 1]
+    out = []
+    for i in big:
+        v = {"k": "var", "i": i}
+        out += [v, {"k": "lam", "b": v}, {"k": "app", "f": {"k": "lam", "b": {"k": "delay", "b": v}}, "a": {"k": "con", "c": {"t": "unit"}}},
+                {"k": "app", "f": {"k": "lam", "b": {"k": "lam", "b": {"k": "constr", "tag": 0, "fs": [v]}}}, "a": {"k": "con", "c": {"t": "unit"}}},
+                {"k": "force", "b": {"k": "delay", "b": {"k": "case", "s": {"k": "constr", "tag": 0, "fs": []}, "bs": [v]}}}]
+    # huge constructor tags and case indices
+    out.append({"k": "constr", "tag": (1 << 64) - 1, "fs": []})
+    out.append({"k": "case", "s": {"k": "constr", "tag": (1 << 64) - 1, "fs": []}, "bs": [{"k": "con", "c": {"t": "unit"}}]})
+    out.append({"k": "case", "s": {"k": "con", "c": {"t": "int", "v": 0, "hs": 1, "hr": 0}}, "bs": [{"k": "con", "c": {"t": "unit"}}]})
+    return out
+
+
+def c10(tier):
+    t0 = time.time()
+    rep = vlib.Reporter("C10")
+    ev = 0
+    panics = 0
+    nontriv = set()
+    samples = []
+    states = trans = 0
+
+    site_count = {}
+
+    def run(cases, what, variants):
+        """every case under every variant dict (budget / api ...) - only crashes count here"""
+        nonlocal ev, panics
+        real = []
+        for c in cases:
+            for v in variants:
+                real.append(dict({"term": c["term"], "var": c["sem"]}, **v))
+        obs = eval_real(real)
+        for r, o in zip(real, obs):
+            ev += 1
+            if o["out"]["o"] in ("panic", "timeout"):
+                panics += 1
+                loc = o["out"].get("msg", "").split(" @ ")[-1]
+                site_count[loc] = site_count.get(loc, 0) + 1
+                if site_count[loc] > 5:
+                    continue      # same crash site: the first five inputs are enough to reproduce it
+                rep.violation("panic@" + loc + "|" + cj(r["term"])[:4000] + cj({k: r[k] for k in r if k not in ("term", "id")}),
+                              {"term": r["term"], "sem": r["var"], "budget": r.get("budget"), "api": r.get("api", False),
+                               "slippage": r.get("slippage"), "observed": o["out"], "source": what},
+                              "evaluation crashed: %s" % o["out"].get("msg", "")[:300])
+            nontriv.add(vlib.canon_hash(r["term"]))
+
+    budgets = [{}, {"api": True}, {"budget": {"cpu": 0, "mem": 0}}, {"budget": {"cpu": -1, "mem": -1}},
+               {"budget": {"cpu": 50000, "mem": 300}, "slippage": 1}, {"budget": {"cpu": -(1 << 62), "mem": 1 << 62}, "api": True}]
+    # 1. the specification is total on open / ill-scoped terms (TLC: no stuck state), the machine must be too
+    open_profiles = [("core", 5, ["E"]), ("lambda", 4, ["A"])] if tier == "quick" else [("core", 6, ["E"]), ("lambda", 5, ["A", "E"])]
+    for (profile, n, sems) in open_profiles:
+        cases, r = mc_cek(profile, n, sems, openvars=2)
+        states += r.distinct
+        trans += r.generated
+        run(cases, "MC_Cek open terms profile=%s N=%d" % (profile, n), budgets[:3] if tier == "quick" else budgets)
+        samples.append({"open_term": cases[len(cases) // 2]["term"], "spec_outcome": cases[len(cases) // 2]["out"]})
+        log("[c10] open %s N=%d: %d terms" % (profile, n, len(cases)))
+    # 2. every builtin on every pool tuple incl. wrong-typed and huge arguments, finite budgets
+    for g in BGROUPS:
+        cases, r = mc_builtin(g, ["A", "E"] if tier == "quick" else SEMS, slack=True)
+        states += r.distinct
+        trans += r.generated
+        run(cases, "MC_Builtin group=%s" % g, [budgets[0], budgets[1], budgets[4]] if tier == "quick" else budgets)
+        log("[c10] builtins %s: %d applications" % (g, len(cases)))
+    # 3. what TLC's integers cannot express
+    run([{"term": t, "sem": s} for t in extra_malformed() for s in ("A", "E")], "absurd indices / tags", budgets)
+    # 4. random programs with a high rate of ill-typed pieces, tiny budgets
+    rng = random.Random(vlib.seed() + 10)
+    terms = termgen.random_terms(rng.randint(0, 1 << 30), 2000 if tier == "quick" else 30000, fuel=(6, 60), wrong=0.15)
+    run([{"term": t, "sem": rng.choice(SEMS)} for t in terms], "random ill-typed terms (seed %d)" % vlib.seed(), [budgets[1], budgets[4]])
+    if ev < 10000:
+        raise vlib.ToolError("C10 vacuity: only %d evaluations" % ev)
+    cov = {"states": states, "transitions": trans, "traces_validated_against_impl": ev, "samples": samples,
+           "evaluations": ev, "distinct_nontrivial": len(nontriv),
+           "rule": "open / ill-scoped terms (MC_Cek with out-of-scope indices 0, scope+1, scope+2), every MC_Builtin row with "
+                   "forces-1/forces/forces+1, absurd indices and tags, random ill-typed programs; each under several budgets "
+                   "(max, 0, negative, tiny with slippage 1) and through the public Program::eval_version* + EvalResult "
+                   "accessors; build has overflow checks on; a panic is an observed outcome that no spec action produces",
+           "exhaustive": True, "compile_side": "covered by the C01/C02 checks once built (constant folding families)"}
+    rc = rep.finish()
+    vlib.write_evidence("C10", tier, "model_checking", cov,
+                        ["harness is built with overflow-checks and debug-assertions on, so arithmetic overflow surfaces as a panic",
+                         "hangs are bounded by the harness process timeout"], time.time() - t0, len(rep.violations))
+    return rc
+
+
+def c10_replay(path):
+    case = json.load(open(path))["case"]
+    c = {"term": case["term"], "var": case["sem"]}
+    for k in ("budget", "slippage", "api"):
+        if case.get(k) is not None:
+            c[k] = case[k]
+    o = eval_real([c])[0]
+    print(json.dumps(o, indent=1))
+    if o["out"]["o"] in ("panic", "timeout"):
+        print("VIOLATION property=C10 replay=%s" % path)
+        return 1
+    return 0
